@@ -88,7 +88,7 @@ func cacheInvoke(iface, method string) func(ssa.CallInstruction) bool {
 func runC07(c *Ctx) {
 	R := c.R
 	defer c.include("C07.S2", "C15", []string{"C15.R1"}, "statements of one connection are never altered by another: connection code stores only into objects it allocated itself", 20)
-	defer c.include("C07.S1", "C18", []string{"C18.R4"}, "a portal keeps that Bind's parameters and result formats: their containers are allocated per message", 2)
+	defer c.include("C07.S1", "C18", []string{"C18.R4", "C18.R1", "C18.R2"}, "a portal keeps that Bind's parameters and result formats, and the names the caches are keyed by stay what the client sent: their containers are allocated per message and the bytes they view are never brought back under the message window", 8)
 	R.Technique = "ownership / provenance rules: allocation-site freshness, who-may-write on Statement/Portal fields, map-update dominance, access-path identity of the values handed to the statement function"
 	R.Explanation = "Decides the structural conditions under which names resolve to the latest definition, per connection, for every history and schedule: (R1) each connection's caches come from factory calls made in serve, the default factories and Set/Bind allocate fresh objects, no package-level variable and no field of the shared Server holds statements, portals or caches, and connection code never stores into the Server; " +
 		"(R2) Statement and Portal fields are written only while the object is being constructed (immutability after publication), Set stores a new Statement on every call - so a portal keeps the definition it was bound to even if the name is parsed again; (R3) Set/Bind update the map under the given name on every successful path without an existence test (re-use replaces), Get/Execute look the given name up; " +
